@@ -1,15 +1,11 @@
-import sys
-from vf import model, emit, catalog, runner
-name = sys.argv[1]; be = int(sys.argv[2]); hi = int(sys.argv[3])
-prog = catalog.CATALOG[name]()
-steps = [('ev', e) for e in prog.events]
-confs, edges = model.bfs(prog, [('start',)] + steps, max_depth=5)
-confs = [c for c in confs if c[0].started]
-cpp = emit.emit_cpp(prog)
-h, index = emit.emit_harness(prog, confs, steps, 'DEV')
-u = runner.Unit(name, be, cpp, h, index); u.nevents = len(prog.events)
-u.lower()
-import subprocess
-inc = ['-I/verif/harness', '-I/verif/tools']
-cmd = ['cbmc', u.genc, u.hc, '/verif/harness/vf_harness.c', '/verif/tools/rt.c', '-DGEN', '--function', 'harness_p%d' % hi, '--unwind', '6', '--trace'] + runner.CBMC_FLAGS + inc
-print(subprocess.run(cmd, stdout=subprocess.PIPE, stderr=subprocess.STDOUT).stdout.decode())
+# usage: dev_one.py <prop> <unit-substring> [tier]   : run only the units of a check whose name contains the substring
+import sys, os
+os.environ.setdefault('VF_WORK', '/dev/shm/vfdev1')
+from vf import props
+pid = sys.argv[1]; sub = sys.argv[2]; tier = sys.argv[3] if len(sys.argv) > 3 else 'quick'
+chk = props.PROPS[pid](tier, 1)
+chk.units = [u for u in chk.units if sub in u.name]
+chk.jobs = [j for j in chk.jobs if sub in j.unit.name]
+chk.evidence_path = '/tmp/dev_one_evidence.json'
+chk.prepare(); chk.solve(); rc = chk.finish()
+print('rc', rc)
